@@ -51,6 +51,23 @@ type Inst struct {
 	Txt    map[string]string `json:"txt,omitempty"` // txt / lic / mrk (and arbitrary other keys)
 }
 
+// flagSyntax writes one flag in one of the spellings the command line accepts.
+func flagSyntax(style int, long, short, val string) []string {
+	switch style % 4 {
+	case 1:
+		return []string{"--" + long + "=" + val}
+	case 2:
+		if short != "" {
+			return []string{"-" + short, val}
+		}
+	case 3:
+		if short != "" && val != "" {
+			return []string{"-" + short + val}
+		}
+	}
+	return []string{"--" + long, val}
+}
+
 type Flags struct {
 	Key        *string `json:"key,omitempty"`
 	Vel        *string `json:"vel,omitempty"`
@@ -59,6 +76,7 @@ type Flags struct {
 	Track      int     `json:"track"`
 	Instrument *string `json:"instrument,omitempty"`
 	Program    *int    `json:"program,omitempty"`
+	Syntax     int     `json:"syntax,omitempty"` // 0: --flag value; 1: --flag=value; 2: -k value; 3: -kvalue (where a short form exists)
 }
 
 type Doc struct {
@@ -246,16 +264,16 @@ func (d Inst) yamlPlain() string {
 func (f Flags) Argv() []string {
 	var a []string
 	if f.Key != nil {
-		a = append(a, "--key", *f.Key)
+		a = append(a, flagSyntax(f.Syntax, "key", "k", *f.Key)...)
 	}
 	if f.Vel != nil {
-		a = append(a, "--velocity", *f.Vel)
+		a = append(a, flagSyntax(f.Syntax, "velocity", "", *f.Vel)...)
 	}
 	if f.BPM != nil {
-		a = append(a, "--bpm", fmt.Sprint(*f.BPM))
+		a = append(a, flagSyntax(f.Syntax, "bpm", "", fmt.Sprint(*f.BPM))...)
 	}
 	if f.Meter != nil {
-		a = append(a, "--meter", f.Meter.String())
+		a = append(a, flagSyntax(f.Syntax, "meter", "", f.Meter.String())...)
 	}
 	if f.Track != 1 && f.Track != 0 {
 		a = append(a, "--track", fmt.Sprint(f.Track))
@@ -427,6 +445,7 @@ func genFlags(o DocOpts) *rapid.Generator[Flags] {
 		f.Vel = opt(t, "fvel", o.FlagsPct/2, rapid.SampledFrom(theory.Dynamics))
 		f.BPM = opt(t, "fbpm", o.FlagsPct/2, genBPM)
 		f.Meter = opt(t, "fmeter", o.FlagsPct/2, genMeter)
+		f.Syntax = rapid.IntRange(0, 3).Draw(t, "flag-syntax")
 		f.Track = 1
 		if o.MultiTrack && coin(t, "multitrack", 60) {
 			f.Track = rapid.OneOf(rapid.SampledFrom([]int{2, 2, 3, 4, 5, 6}), rapid.IntRange(2, o.MaxTrack)).Draw(t, "track")
